@@ -203,7 +203,7 @@ def strategy(max_tasks=5):
         if D.bool(0.12):
             return {'executor': {
                 'redelivered': D.bool(0.5), 'safe_rerun': D.bool(0.5),
-                'with_id': D.bool(0.85),
+                'with_id': D.bool(0.7),
                 'action': D.choice(['value', 'result_ok', 'result_error',
                                     'raise', 'async']),
                 'client': D.choice(['ok', 'ok', 'mistral_exc_first',
